@@ -514,7 +514,7 @@ func runWuffs(r *hlib.Run) {
 		cases = append(cases, wcase{[]byte(s), "hand"})
 		decls = append(decls, []byte(s))
 	}
-	nFile, nDecl := 60, 3000
+	nFile, nDecl := 40, 2200
 	if r.Thorough {
 		nFile, nDecl = 6000, 400000
 	}
@@ -584,7 +584,7 @@ func runWuffs(r *hlib.Run) {
 		replay := "wuffsfmt " + hlib.Hex(c.src) + "\n--- source (" + c.origin + ") ---\n" + string(c.src)
 		switch status {
 		case "ok":
-		case "reject-tokenize", "reject-parse", "reject-render":
+		case "reject-tokenize", "reject-parse", "reject-render", "skipped":
 			continue
 		default: // panic, timeout, crash: wuffsfmt must reject or format, not die
 			extra := ""
